@@ -100,7 +100,7 @@ def rules_c01(ctx):
     G = p_segmentation
     return (S.rule_range_form(ctx, 'pgm', ctx.units) + S.rule_agree_eps(ctx, 'pgm', ctx.units) + S.rule_clamp(ctx, 'pgm', ctx.units) +
             S.rule_kind_pgm(ctx, ctx.units) + S.rule_keydiff_type(ctx, ctx.units) +
-            [o for o in G.rule_rank_agree(ctx) if o.rule == 'RANK-AGREE'] + [o for o in G.rule_omp_order(ctx) if o.arm == 'last-chunk'] + G.rule_key_arith(ctx))
+            [o for o in G.rule_rank_agree(ctx) if o.rule == 'RANK-AGREE'] + [o for o in G.rule_omp_order(ctx) if o.arm == 'last-chunk'] + G.rule_key_arith(ctx) + S.rule_upper_level_sentinel(ctx, 'pgm', ctx.units))
 
 
 def rules_c02(ctx):
@@ -120,19 +120,19 @@ def rules_c08(ctx):
     S = p_search
     return (S.rule_range_form(ctx, 'compressed') + S.rule_agree_eps(ctx, 'compressed') + S.rule_clamp(ctx, 'compressed') + S.rule_cap(ctx, 'compressed') +
             S.rule_kind_compressed(ctx) + S.rule_window_form(ctx, 'compressed') + S.rule_compressed_level(ctx) + p_segmentation.rule_precision(ctx) +
-            S.rule_conv_range(ctx, 'compressed'))
+            S.rule_conv_range(ctx, 'compressed') + S.rule_upper_level_sentinel(ctx, 'compressed') + S.rule_upper_level_sentinel(ctx, 'pgm', ctx.units))
 
 
 def rules_c09(ctx):
     S = p_search
     return (S.rule_range_form(ctx, 'bucketing') + S.rule_agree_eps(ctx, 'bucketing') + S.rule_clamp(ctx, 'bucketing') + S.rule_cap(ctx, 'bucketing') +
-            S.rule_kind_bucketing(ctx) + S.rule_bucket_agree(ctx) + S.rule_conv_range(ctx, 'pgm'))
+            S.rule_kind_bucketing(ctx) + S.rule_bucket_agree(ctx) + S.rule_table_width(ctx) + S.rule_conv_range(ctx, 'pgm'))
 
 
 def rules_c10(ctx):
     S = p_search
     return (S.rule_range_form(ctx, 'eliasfano') + S.rule_agree_eps(ctx, 'eliasfano') + S.rule_clamp(ctx, 'eliasfano') + S.rule_cap(ctx, 'eliasfano') +
-            S.rule_rebase_agree(ctx) + S.rule_conv_range(ctx, 'eliasfano') + p_eliasfano.rule_select_range(ctx))
+            S.rule_rebase_agree(ctx) + S.rule_conv_range(ctx, 'eliasfano') + p_eliasfano.rule_select_range(ctx) + p_eliasfano.rule_beyond_value(ctx))
 
 
 _SEARCH_ND = ('that every constraint point is within Epsilon of its segment, that float slopes and size_t(slope*double(k-key)) round inside the +2 slack, '
